@@ -2249,6 +2249,32 @@ func ruleTimeFields(p *Program, r *Reporter) {
 				}
 			}
 		}
+		if got == "" {
+			// the fields kept in a table of functions, one per name
+			for _, b := range helper.Blocks {
+				for _, ins := range b.Instrs {
+					c, ok := ins.(*ssa.Call)
+					if !ok || c.Call.StaticCallee() != nil || c.Call.IsInvoke() {
+						continue
+					}
+					g, _, ok := moduleFuncTable(p, c.Call.Value)
+					if !ok {
+						continue
+					}
+					if h := funcTableEntries(p, g)[field]; h != nil {
+						for _, hb := range h.Blocks {
+							if ret, ok := terminator(hb).(*ssa.Return); ok && len(ret.Results) == 1 {
+								got = timeComponent(ret.Results[0])
+							}
+						}
+					}
+				}
+			}
+		}
+		// a single accessor of the time stands for the component it returns
+		if alias, ok := map[string]string{"Hour": "Clock#0", "Minute": "Clock#1", "Second": "Clock#2", "Year": "Date#0", "Month": "Date#1", "Day": "Date#2"}[got]; ok {
+			got = alias
+		}
 		if got == want[name] {
 			r.OkNT(key, p.Pos(fn.Pos()), "→ "+got)
 		} else {
@@ -2281,6 +2307,23 @@ func timeZoneObligation(p *Program, r *Reporter, helper *ssa.Function) {
 				load = c
 			case "(time.Time).Clock", "(time.Time).Date", "(time.Time).Weekday", "(time.Time).Hour", "(time.Time).Minute", "(time.Time).Second", "(time.Time).Year", "(time.Time).Month", "(time.Time).Day", "(time.Time).YearDay":
 				recvs = append(recvs, c.Call.Args[0])
+			}
+		}
+	}
+	// a time handed to a function out of a table of the module's own functions
+	// is decomposed there
+	for _, b := range helper.Blocks {
+		for _, ins := range b.Instrs {
+			c, ok := ins.(*ssa.Call)
+			if !ok || c.Call.StaticCallee() != nil || c.Call.IsInvoke() {
+				continue
+			}
+			if _, _, ok := moduleFuncTable(p, c.Call.Value); ok {
+				for _, arg := range c.Call.Args {
+					if isStdNamed(arg.Type(), "time", "Time") {
+						recvs = append(recvs, arg)
+					}
+				}
 			}
 		}
 	}
